@@ -719,7 +719,7 @@ func (w *world) waitFor(a *actor) (string, bool) {
 	select {
 	case m := <-a.at:
 		return m, true
-	case <-time.After(20 * time.Second):
+	case <-time.After(60 * time.Second):
 		return "", false
 	}
 }
